@@ -194,7 +194,7 @@ def build_run_end_event(
         span_id=span_id,
         parent_span_id=parent_span_id,
         graph_name=graph.name,
-        status=RunStatus.FAILED if error else RunStatus.COMPLETED,
-        error=str(error) if error else None,
+        status=RunStatus.FAILED if error is not None else RunStatus.COMPLETED,
+        error=str(error) if error is not None else None,
         duration_ms=duration_ms,
     )
